@@ -37,14 +37,21 @@ CHECKS = {
     "C03": dict(
         text="Theorems over every accepted trace of model/M5full.v (props/C03.v): a claim is accepted only on a target that is not draining; a drain's snapshot "
              "is the in-flight set; when a Drain call ends every snapshot request has ended or been cut off; a request is cut off only by a drain that had it "
-             "in its snapshot, after that drain's deadline (mark + timeout); cut-off requests are answered 504; early return of a second Drain and the "
-             "probe-flips-draining behaviour stated honestly (D11, D12). The command-level statement (when deploy/pause/stop returns: nothing in flight un-cut on "
-             "the drained targets, nothing claimed on them afterwards) is the monitor corr/C03corr.c03_check, evaluated on every recorded trace. Correspondence: "
-             "in-flight sets finishing early / at the deadline +-1 ns / never, drain timeouts 0..3 s, late and held requests forced through yields.",
-        note="No axioms. Recorded finding C03-D2D3 (requests already routed / past the gate reach replaced or paused targets after the command returned). That a command waits for "
-             "all its Drain calls is sync.WaitGroup (Go), checked by the monitor, not proved. Overlapping commands on one service are outside the quantifier (monitor excludes them). "
-             "'Cut off' = context cancelled; connection teardown timing not modelled; no upgraded connections in the harness.",
-        technique="Coq proof (invariants over an event-trace acceptor) + kernel-evaluated trace acceptance + command-level trace monitor with known-finding pattern", ref="§7 C03"),
+             "in its snapshot, after that drain's deadline (mark + timeout), or - an upgraded connection - at the snapshot; cut-off requests are answered 504, "
+             "upgraded ones 101; early return of a second Drain and the probe-flips-draining behaviour stated honestly (D11, D12). Command level "
+             "(props/C03cmd.v, over traces accepted by the timing view model/M5time.v and jointly by both views): when a command returns no Drain call it "
+             "certainly started is open; every such call ended (cancel-rest, then the restore by the same goroutine) before the return; a deploy's return is "
+             "preceded, after its install, by a Drain of EVERY target of the balancer it replaced, with the drain timeout it was given; jointly: at the "
+             "return every request of those calls' snapshots has left the target or been cut off; a claim on a target comes from a request whose service "
+             "object held that balancer in a slot when it picked it (the residual of finding D2); the 'possible owner' form refuted by witness. The remaining "
+             "command-level clause (nothing claimed on the drained targets afterwards, modulo D2/D3) is the monitor corr/C03corr.c03_check. Correspondence: "
+             "in-flight sets finishing early / at the deadline +-1 ns / never, upgraded connections (101 at once or during the drain), drain timeouts 0..3 s, "
+             "late and held requests forced through yields; every recorded trace must be accepted by BOTH views.",
+        note="No axioms. Recorded finding C03-D2D3 (requests already routed / past the gate reach replaced or paused targets after the command returned). Which command "
+             "started a Drain call is inferred by the timing view (same instant, same drain timeout): the theorems carry 'c is the only candidate' as an explicit hypothesis; "
+             "the view's state-set rule does not look at the states (a drain 'end' could be a mark: example in C03cmd.v). Overlapping commands on one service are outside the "
+             "quantifier (monitor excludes them). 'Cut off' = context cancelled; connection teardown timing not modelled.",
+        technique="Coq proof (invariants over two event-trace acceptors, joint theorems) + kernel-evaluated trace acceptance by both + command-level trace monitor with known-finding pattern", ref="§7 C03"),
     "C04": dict(
         text="Theorems over all tables, hosts and paths on model/ServiceMap.v (props/C04.v: declarative route_spec incl. uniqueness, "
              "independence of sort/tie/map order and of table order, history-freedom over all command histories incl. restarts, port "
